@@ -1,6 +1,6 @@
 (* The Q instance of the model, as the functions the runner calls. *)
 From Coq Require Import List ZArith QArith Bool.
-From SplipyModel Require Import Model.Num Model.BasisDef Model.BasisEval Model.Knots Model.Tensor Model.Obj Model.Deriv Model.KnotInsert Model.Reparam.
+From SplipyModel Require Import Model.Num Model.BasisDef Model.BasisEval Model.Knots Model.Tensor Model.Obj Model.Deriv Model.KnotInsert Model.Reparam Model.Affine.
 Import ListNotations.
 
 Definition q_basis_evaluate := @basis_evaluate Q NumQ.
@@ -25,4 +25,11 @@ Definition q_obj_reverse := @obj_reverse Q NumQ.
 Definition q_obj_swap := @obj_swap Q NumQ.
 Definition q_obj_reparam_dir := @obj_reparam_dir Q NumQ.
 Definition q_obj_reparam_all := @obj_reparam_all Q NumQ.
+Definition q_obj_translate := @obj_translate Q NumQ.
+Definition q_obj_scale := @obj_scale Q NumQ.
+Definition q_obj_rotate := @obj_rotate Q NumQ.
+Definition q_obj_mirror := @obj_mirror Q NumQ.
+Definition q_obj_project := @obj_project Q NumQ.
+Definition q_obj_set_dimension := @obj_set_dimension Q NumQ.
+Definition q_obj_force_rational := @obj_force_rational Q NumQ.
 Definition q_res_witness (e : err) : res unit := Err e.
